@@ -232,14 +232,21 @@ func (s GroupSpec) refRow(net []execution.Record, g int) []octosql.Value {
 	return row
 }
 
+func (s GroupSpec) refRows(net []execution.Record) [][]octosql.Value {
+	refs := make([][]octosql.Value, len(net))
+	for g := range net {
+		refs[g] = s.refRow(net, g)
+	}
+	return refs
+}
+
 // AssertMatches asserts that the consolidated output `out` is the reference grouping of the
 // consolidated input `net`: exactly one row per distinct key of net (NULL is a key), equal to the
 // reference row of that group (tag+"-group-row-once"), and no other row (tag+"-no-other-row").
 func (s GroupSpec) AssertMatches(net, out []execution.Record, tag string) {
-	refs := make([][]octosql.Value, len(net))
+	refs := s.refRows(net)
 	ok := true
 	for g := range net {
-		refs[g] = s.refRow(net, g)
 		ok = zzverif.And(ok, count(out, refs[g]) == 1)
 	}
 	zzverif.Assert(ok, tag+"-group-row-once")
